@@ -11,6 +11,7 @@ import (
 	"go/types"
 	"net/textproto"
 	"sort"
+	"strconv"
 	"strings"
 
 	"golang.org/x/tools/go/ssa"
@@ -128,6 +129,22 @@ func init() {
 			}
 			return TupleV{ex.i64(int64(d)), &IfaceV{}}
 		},
+		// humanize.ParseBytes on concrete strings: "" is an error, plain digits are bytes; unit suffixes
+		// are not needed by the harnesses (unsupported)
+		"github.com/dustin/go-humanize.ParseBytes": func(ex *Exec, fn *ssa.Function, a []Value, fr *Frame) Value {
+			g, ok := ex.goString(a[0].(*StringV))
+			if !ok {
+				panic(unsupported("humanize.ParseBytes of a symbolic string"))
+			}
+			if g == "" {
+				return TupleV{ex.tb.BV(64, 0), ex.libError("humanize.ParseBytes")}
+			}
+			n, err := strconv.ParseUint(g, 10, 64)
+			if err != nil {
+				panic(unsupported("humanize.ParseBytes(" + g + ")"))
+			}
+			return TupleV{ex.tb.BV(64, n), &IfaceV{}}
+		},
 		"(time.Duration).Seconds": func(ex *Exec, fn *ssa.Function, a []Value, fr *Frame) Value {
 			t := a[0].(*Term)
 			if !t.IsConst() {
@@ -150,6 +167,9 @@ func init() {
 			return TupleV{a[1].(*SliceV).Len, &IfaceV{}}
 		},
 		"encoding/binary.Read":  intrBinaryRead,
+		"(*bytes.Buffer).Read": intrBufferRead,
+		"(encoding/binary.bigEndian).Uint32": func(ex *Exec, fn *ssa.Function, a []Value, fr *Frame) Value { return ex.getUint(a[1].(*SliceV), 4) },
+		"(encoding/binary.bigEndian).Uint64": func(ex *Exec, fn *ssa.Function, a []Value, fr *Frame) Value { return ex.getUint(a[1].(*SliceV), 8) },
 		"(encoding/binary.bigEndian).PutUint32": func(ex *Exec, fn *ssa.Function, a []Value, fr *Frame) Value { return ex.putUint(a[1].(*SliceV), a[2].(*Term), 4) },
 		"(encoding/binary.bigEndian).PutUint64": func(ex *Exec, fn *ssa.Function, a []Value, fr *Frame) Value { return ex.putUint(a[1].(*SliceV), a[2].(*Term), 8) },
 		"(net/http.Header).Get":    intrHeaderGet,
@@ -510,6 +530,15 @@ func (ex *Exec) verifCall(fn *ssa.Function, args []Value, fr *Frame) Value {
 			return ex.i64(int64(ex.tm.parks))
 		}
 		return ex.i64(0)
+	case "verifOnLock":
+		// verifOnLock(mutex, f): f runs at every (R)Lock of the mutex, before it is acquired
+		// (sequential harnesses: "waiting for the lock takes time")
+		mp, _ := args[0].(*IfaceV).Val.(*Pointer)
+		if mp == nil || mp.IsNil() {
+			panic(unsupported("verifOnLock on nil"))
+		}
+		ex.ghost[fmt.Sprintf("onlock:%p", ex.lockState(mp))] = args[1].(*FuncV)
+		return nil
 	case "verifSpawnedCount":
 		lst, _ := ex.ghost["spawned"].([]deferred)
 		return ex.i64(int64(len(lst)))
@@ -564,6 +593,9 @@ func (ex *Exec) verifCall(fn *ssa.Function, args []Value, fr *Frame) Value {
 		}
 		return ex.constStr("")
 	case "verifNative":
+		if ex.res != nil && ex.res.NotComparable == "" {
+			ex.res.NotComparable = "harness branches on verifNative()"
+		}
 		return tb.False
 	case "verifTier":
 		return ex.i64(int64(ex.opts.Tier))
@@ -686,6 +718,14 @@ func (ex *Exec) lockOp(recv Value, op string) Value {
 	}
 	st := ex.lockState(p)
 	ex.callLog = append(ex.callLog, op)
+	if op == "Lock" || op == "RLock" {
+		// verifOnLock: the harness' model of what may happen while a request waits for this lock
+		if cb, ok := ex.ghost[fmt.Sprintf("onlock:%p", st)].(*FuncV); ok && !ex.inOnLock {
+			ex.inOnLock = true
+			ex.invoke(cb, nil, ex.curFrame)
+			ex.inOnLock = false
+		}
+	}
 	switch op {
 	case "Lock":
 		if st["w"] > 0 || st["r"] > 0 {
@@ -1143,6 +1183,56 @@ func intrBinaryRead(ex *Exec, fn *ssa.Function, a []Value, fr *Frame) Value {
 	}
 	o.Val.(StructV)[1] = buf.Len
 	return ex.libError("io.ErrUnexpectedEOF")
+}
+
+// (*bytes.Buffer).Read: copies min(len(p), remaining) bytes; an empty buffer answers io.EOF unless
+// len(p) == 0; a partial read is NOT an error.
+func intrBufferRead(ex *Exec, fn *ssa.Function, a []Value, fr *Frame) Value {
+	tb := ex.tb
+	o, buf, off := ex.bufParts(a[0])
+	p := a[1].(*SliceV)
+	rem := tb.Sub(buf.Len, off)
+	plen := ex.concInt(p.Len, "bytes.Buffer.Read: len(p)")
+	if ex.branch(tb.Eq(rem, ex.i64(0))) {
+		if plen == 0 {
+			return TupleV{ex.i64(0), &IfaceV{}}
+		}
+		return TupleV{ex.i64(0), ex.libError("io.EOF")}
+	}
+	if plen == 0 {
+		return TupleV{ex.i64(0), &IfaceV{}}
+	}
+	n := tb.Ite(tb.Cmp(OpSlt, rem, ex.i64(int64(plen))), rem, ex.i64(int64(plen)))
+	poff := ex.concInt(p.Off, "bytes.Buffer.Read: offset of p")
+	arr := p.Arr.Val.(ArrayV)
+	p.Arr.UF = ""
+	for i := 0; i < plen; i++ {
+		inRange := tb.Cmp(OpSlt, ex.i64(int64(i)), n)
+		// positions beyond the data are not read: clamp the index so that the read stays in bounds
+		pos := tb.Add(tb.Add(buf.Off, off), tb.Ite(inRange, ex.i64(int64(i)), ex.i64(0)))
+		b := ex.readAt(buf.Arr, pos)
+		old, _ := arr[poff+i].(*Term)
+		if old == nil {
+			old = tb.BV(8, 0)
+		}
+		arr[poff+i] = tb.Ite(inRange, b, old)
+	}
+	o.Val.(StructV)[1] = tb.Add(off, n)
+	return TupleV{n, &IfaceV{}}
+}
+
+func (ex *Exec) getUint(s *SliceV, nb int) Value {
+	ex.check(ex.tb.Cmp(OpSle, ex.i64(int64(nb)), s.Len), "Uint: index out of range")
+	var v *Term
+	for i := 0; i < nb; i++ {
+		b := ex.readAt(s.Arr, ex.tb.Add(s.Off, ex.i64(int64(i))))
+		if v == nil {
+			v = b
+		} else {
+			v = ex.tb.Concat(v, b)
+		}
+	}
+	return v
 }
 
 func (ex *Exec) putUint(s *SliceV, v *Term, nb int) Value {
